@@ -428,5 +428,9 @@ def run(rec, tier, seed):
                            'per_frame_boxes': 'npt: box scaled anisotropically from frame to frame (2 and 3 frames)',
                            'also': 'coordinates shifted by -3..3 box lengths per site and axis; molecule labels negative / non-contiguous; positions in Fortran order, float32, strided; one Debyer object reused for inputs of different sizes'})
     rec.note('not_enumerated', 'the interleaving of OpenMP threads inside one run')
+    rec.note('exhaustive', False)
+    rec.note('explanation', 'The product of inputs x chunk counts x OpenMP team sizes x repetitions listed under alphabets is enumerated completely on the compiled '
+                            'code; the quantifier of the property also ranges over thread schedules inside one parallel region, which are only sampled by the '
+                            'repetitions (no controllable OpenMP scheduler exists here), hence exhaustive=false.')
     rec.sample({'n': 4, 'molecules': [0, 1, 0, 1], 'frames': 1, 'box': 'small', 'split': None})
     rec.sample({'n': 5, 'molecules': [0, 0, 1, 1, 0], 'frames': 2, 'box': 'large', 'split': 2})
